@@ -7,6 +7,7 @@ import (
 	sdk "github.com/cosmos/cosmos-sdk/types"
 
 	"verif/harness/mc"
+	"verif/harness/props/c18"
 	"verif/harness/props/farm"
 	"verif/harness/props/htlc"
 	"verif/harness/props/service"
@@ -26,5 +27,43 @@ func Parts() []mc.Part {
 			StartDelta: 2, Creator: true, Mode: "C13"}), 6, 8, false, rule),
 	)
 	ps = append(ps, service.Parts("C13")()...)
+	for _, v := range []c18.Variant{c18.QueueVariant(), c18.OracleVariant()} {
+		mk := c18.New(v)
+		ps = append(ps, mc.ExplorePart("random-"+v.Name, func() (*mc.Env, mc.Driver) {
+			e, d := mk()
+			return e, &randomHygiene{inner: d}
+		}, 6, 8, true, rule))
+	}
 	return ps
+}
+
+// randomHygiene runs the random driver in block-safety mode: its own verdicts about due processing are
+// adopted under C13 signatures and the raw pending queue is compared with the chain height in every state.
+type randomHygiene struct{ inner mc.Driver }
+
+var adoptRandom = map[string]string{
+	"C18/block-panic": "C13/block-panic",
+	"C18/not-fulfilled-in-block-after-due-height": "C13/random/due-processing/not-fulfilled-in-block-after-due-height",
+	"C18/fulfilled-before-block-after-due-height": "C13/random/due-processing/fulfilled-before-block-after-due-height",
+	"C18/still-in-pending-queue-after-processing": "C13/random/due-processing/still-in-pending-queue-after-processing",
+}
+
+func (r *randomHygiene) ID() string                             { return "C13/" + r.inner.ID() }
+func (r *randomHygiene) Stores() []string                       { return r.inner.Stores() }
+func (r *randomHygiene) Init(e *mc.Env) *mc.State               { return r.inner.Init(e) }
+func (r *randomHygiene) Enabled(e *mc.Env, s *mc.State) []mc.Op { return r.inner.Enabled(e, s) }
+func (r *randomHygiene) Apply(e *mc.Env, s *mc.State, op mc.Op) []mc.Finding {
+	return mc.Select(r.inner.Apply(e, s, op), "C13", adoptRandom)
+}
+
+func (r *randomHygiene) Check(e *mc.Env, s *mc.State) []mc.Finding {
+	fs := mc.Select(r.inner.Check(e, s), "C13", adoptRandom)
+	h := s.Ctx.BlockHeight()
+	// the begin-block of height h drains the queue of height h-1: nothing older may remain
+	for _, q := range mc.QueueEntries(s.Ctx, e, "random", 0x02) {
+		if q.Height < h {
+			fs = append(fs, mc.F("C13/queue/random/entry-in-the-past", "request queued for height %d still present in block %d (the begin-block of %d has run)", q.Height, h, q.Height+1))
+		}
+	}
+	return fs
 }
